@@ -121,6 +121,10 @@ def frames(prop):
         'frame/erased-cutoff-downcasts-then-asks-the-typed-cutoff-with-old-then-new', 'src/cutoff.rs', 'new',
         [r'let Some\(a\) = a\.as_any\(\)\.downcast_ref::<T>\(\)', r'let Some\(b\) = b\.as_any\(\)\.downcast_ref::<T>\(\)', r'cutoff\.should_cutoff\(a,\s*b\)'],
         impl='impl ErasedCutoff'))
+    add({'C19', 'C11'}, lambda: F.only_in(
+        'frame/the-raw-height-setter-is-used-only-by-the-checked-one', r'\b(?!state\b|ah_heap\b)\w+\.set_height\(',
+        {'adjust_heights_heap.rs::set_height', 'adjust_heights_heap.rs::ensure_height_requirement'},
+        ['src/node.rs', 'src/state.rs', 'src/adjust_heights_heap.rs', 'src/recompute_heap.rs', 'src/kind/bind.rs', 'src/scope.rs'], min_hits=2))
     add({'C19'}, lambda: F.only_in(
         'frame/node-height-assigned-only-in-Node::set_height', r'\bheight\s*\.\s*(set|replace)\(', {'set_height'}, NODE, min_hits=1))
 
@@ -129,6 +133,17 @@ def frames(prop):
         'frame/ordmap-symmetric_diff-is-self.diff(other)-retagged', 'incremental-map/src/im_rc.rs', 'symmetric_diff',
         [r'self\.diff\(other\)\s*\.map\(DiffElement::from_diff_item\)'],
         impl="impl<'a, K: Ord + 'a, V: PartialEq + 'a> SymmetricDiffMap<'a, K, V> for OrdMap<K, V>"))
+    add({'C18'}, lambda: F.body_is(
+        'frame/btreemap-symmetric_fold-is-exactly-self.symmetric_diff(other).fold(init,f)', 'incremental-map/src/symmetric_fold.rs', 'symmetric_fold',
+        r'self\.symmetric_diff\(other\)\.fold\(init,f\)', impl='impl<K: Ord, V: PartialEq> SymmetricFoldMap<K, V> for BTreeMap<K, V>'))
+    add({'C18'}, lambda: F.body_is(
+        'frame/rc-btreemap-symmetric_fold-derefs-both-and-folds-the-diff', 'incremental-map/src/symmetric_fold.rs', 'symmetric_fold',
+        r'letself_target=self\.deref\(\);letother_target=other\.deref\(\);self_target\.symmetric_diff\(other_target\)\.fold\(init,f\)',
+        impl='impl<K: Ord, V: PartialEq> SymmetricFoldMap<K, V> for Rc<BTreeMap<K, V>>'))
+    add({'C18'}, lambda: F.body_is(
+        'frame/btreemap-symmetric_diff-builds-the-iterator-from-self-then-other', 'incremental-map/src/symmetric_fold.rs', 'symmetric_diff',
+        r'SymmetricDiff\{self_:self,other,keys:MergeOnce::new\(self\.keys\(\),other\.keys\(\)\),\}',
+        impl="impl<'a, K: Ord + 'a, V: PartialEq + 'a> SymmetricDiffMap<'a, K, V> for BTreeMap<K, V>"))
     add({'C18'}, lambda: F.body_is(
         'frame/ordmap-symmetric_fold-is-exactly-self.symmetric_diff(other).fold(init,f)', 'incremental-map/src/im_rc.rs', 'symmetric_fold',
         r'self\.symmetric_diff\(other\)\.fold\(init,f\)',
